@@ -184,6 +184,11 @@ def check_load_faults(mido, cs, text, outer, acc):
                 outcome = f'error:{type(e).__name__}'
                 acc.nontrivial += 1
                 acc.count('load_faults_that_failed')
+                # probe while the exception (and any frame or generator it
+                # keeps alive) still exists: a restore that only happens when
+                # a context-manager generator is garbage collected is a leak
+                after_call(amb, acc, 'raised', 'load',
+                           dict(case, outcome=outcome, inside_handler=True))
             what = 'success' if outcome == 'success' else 'raised'
             after_call(amb, acc, what, 'load', dict(case, outcome=outcome))
 
@@ -222,6 +227,8 @@ def check_save_faults(mido, cs, outer, acc):
                         outcome = 'raised'
                         acc.nontrivial += 1
                         acc.count('save_faults_that_failed')
+                        after_call(amb, acc, outcome, 'save',
+                                   dict(case, inside_handler=True))
                     after_call(amb, acc, outcome, 'save', case)
         # the output file fails on its k-th write
         mf = mido.MidiFile(type=1, charset=cs, tracks=[
@@ -239,6 +246,8 @@ def check_save_faults(mido, cs, outer, acc):
                 outcome = 'raised'
                 acc.nontrivial += 1
                 acc.count('save_faults_that_failed')
+                after_call(amb, acc, outcome, 'save',
+                           dict(case, inside_handler=True))
             after_call(amb, acc, outcome, 'save', case)
         # loading from a file name that does not exist / saving nowhere
         for fn_case in ('missing-file', 'no-target'):
